@@ -73,7 +73,7 @@ func main() {
 		select {
 		case obs := <-res:
 			o.Emit(obs, fields...)
-		case <-time.After(60 * time.Second):
+		case <-runningFor(60 * time.Second):
 			buf := make([]byte, 1<<16)
 			n := runtime.Stack(buf, true)
 			dump := c.out + "/" + c.name + ".hang-goroutines.txt"
@@ -106,4 +106,29 @@ func main() {
 		f.Gen(c, o, emit)
 	}
 	o.Close(nil)
+}
+
+// runningFor is time.After measured in time this process was actually scheduled: a tick that arrives late (the
+// machine was suspended, snapshotted or starved) counts for at most twice its period. A watchdog built on it
+// reports a hang only after the code under test had the whole period to make progress; a real deadlock leaves
+// this goroutine ticking, so it is reported after d as before.
+func runningFor(d time.Duration) <-chan struct{} {
+	ch := make(chan struct{})
+	go func() {
+		const period = 50 * time.Millisecond
+		var ran time.Duration
+		last := time.Now()
+		for ran < d {
+			time.Sleep(period)
+			now := time.Now()
+			step := now.Sub(last)
+			if step > 2*period {
+				step = 2 * period
+			}
+			ran += step
+			last = now
+		}
+		close(ch)
+	}()
+	return ch
 }
